@@ -59,3 +59,6 @@ package ro
 //@ site ShareWithConfig
 //@   hot : Share keeps one upstream subscription, a subject and a reference count shared by all subscribers (verified by the C11 contracts)
 //@   assume-released source : the upstream subscription of Share is released by the reference count / reset logic (C11 contracts), not by each subscriber's teardown
+
+//@ site Never
+//@   handoff : the cancellation of the subscription context is reported by a library goroutine
